@@ -67,6 +67,13 @@ pub fn boundary() -> Vec<Value> {
     v.push(m(vec![(Key::Int(1), Value::UInt(1))]));
     v.push(m(vec![(Key::Int(1), Value::Int(1)), (Key::String(Arc::new("a".into())), Value::Null)]));
     v.push(m(vec![(Key::String(Arc::new("a".into())), Value::Null), (Key::Int(1), Value::Float(1.0))]));
+    // same size, different key sets, null / falsy values (an absent key is not a null value)
+    v.push(m(vec![(Key::String(Arc::new("a".into())), Value::Null)]));
+    v.push(m(vec![(Key::String(Arc::new("b".into())), Value::Null)]));
+    v.push(m(vec![(Key::String(Arc::new("a".into())), Value::Int(1)), (Key::String(Arc::new("b".into())), Value::Null)]));
+    v.push(m(vec![(Key::String(Arc::new("a".into())), Value::Int(1)), (Key::String(Arc::new("c".into())), Value::Int(2))]));
+    v.push(m(vec![(Key::Bool(false), Value::Bool(false))]));
+    v.push(m(vec![(Key::Int(0), Value::Bool(false))]));
     for ns in [0i128, 1, -1, 1_000_000_000, i64::MAX as i128, (i64::MAX as i128) * 1_000_000] {
         v.push(Value::Duration(crate::wire::dur_from_ns(ns).unwrap()));
     }
